@@ -278,6 +278,7 @@ def run(ctx, eng):
     ctx.rule('PAIR.link: related-event links followed by appends on every '
              'continuing path; PAIR.local-reset: local resets recorded')
     ctx.rule('FLOW.event-id: event fields traced to self.stream_id')
+    cm.event_fields(ctx, eng)
     fsm = eng.fsm
     ctx.record('stream_cells', len(fsm.stream.cells))
     ctx.floor('stream_cells', 60)
